@@ -123,6 +123,48 @@ class Loop(Harness):
         yield 'no-other-row-touched', obs['others_changed'] == []
 
 
+class LoopReal(Loop):
+    """as Loop, but with the real GEXTest._send_init and GEXTest.reconnect on a scripted connection that always succeeds; only the DH group object is a
+    stand-in that hands out the modelled server's modulus.  What _send_init does with a reply (e.g. discarding one) is therefore part of the claim."""
+
+    def __init__(self, style, alg, openssh):
+        super().__init__(style, alg, openssh)
+        self.name = 'loopreal-' + self.name[len('loop-'):]
+
+    def run(self, M, inp):
+        from props.c19 import PSock
+        db, _ = OL.fresh_tables(M)
+        before = copy.deepcopy(M.ssh2_kexdb.SSH2_KexDB.MASTER_DB['kex'])
+        kex = make_kex(M, {'kex': [self.alg, 'curve25519-sha256']})
+        banner = M.banner.Banner((2, 0), 'OpenSSH_8.0' if self.openssh else 'dropbear_2020.81', None, True)
+        out = M.outputbuffer.OutputBuffer()
+        calls = []
+        KE = M.kexdh.KexDHException
+        harness = self
+        s = PSock({'connect_fail': [False], 'banner_fail': [False], 'kexinit_garbage': [False]})
+
+        class Grp:
+            def __init__(self_, out_):
+                self_.size = -1
+
+            def send_init_gex(self_, sock, mn, pref, mx):
+                calls.append((harness.alg, mn, pref, mx))
+                self_.size = server_reply(inp['have'], harness.style, mn, pref, mx)
+                if bool(self_.size == -1):
+                    raise KE('no group')
+
+            def recv_reply(self_, sock, parse=True): return b''
+            def get_dh_modulus_size(self_): return self_.size
+        with AE.patched(M.gextest, KexGroupExchange_SHA1=Grp, KexGroupExchange_SHA256=Grp):
+            r = guarded(M.gextest.GEXTest.run, out, s, banner, kex)
+        if isinstance(r, Exc):
+            return {'exc': r}
+        row, b = db['kex'][self.alg], before[self.alg]
+        return {'size': kex.dh_modulus_sizes().get(self.alg), 'calls': calls, 'fails': list(row[1]) if len(row) > 1 else [], 'warns': list(row[2]) if len(row) > 2 else [],
+                'infos': list(row[3]) if len(row) > 3 else [], 'b_fails': list(b[1]) if len(b) > 1 else [], 'b_warns': list(b[2]) if len(b) > 2 else [],
+                'others_changed': [k for k in db['kex'] if k != self.alg and db['kex'][k] != before[k]]}
+
+
 class Measure(Harness):
     """send_init_gex + get_dh_modulus_size on a GEX_GROUP message whose modulus has exactly b bits (content symbolic): measured size == b."""
     prop, ob = PROP, 'O2'
@@ -219,6 +261,7 @@ def tasks(tier):
         for alg in (G1, G256):
             for openssh in (False, True):
                 T.append(Loop(style, alg, openssh))
+                T.append(LoopReal(style, alg, openssh))
     for bits in ((512, 1023, 1024, 1025, 2048, 3072) if q else (512, 768, 1023, 1024, 1025, 1536, 2047, 2048, 2049, 3072, 4096)):
         T.append(Measure(bits, True))
         if bits % 8:
@@ -233,6 +276,8 @@ def tasks(tier):
 def harness_by_name(name, params):
     k = name.split(':')[1].split('-')[0]
     p = params
+    if k == 'loopreal':
+        return LoopReal(p['style'], p['alg'], p['openssh'])
     if k == 'loop':
         return Loop(p['style'], p['alg'], p['openssh'])
     if k == 'measure':
